@@ -210,14 +210,31 @@ def run_pairs(run, r, ctx, uc, unitcell, B, G, UB_t, tol, hstep):
             sel = r.choice(len(pool), cnt, replace=False)
             pool = [pool[k] for k in sorted(sel)]
         rp += pool
+    # ring order: orient(ring1, g1, ring2, g2) takes the rings in the order of the two peaks, so (r1, r2) with r1 > r2 is
+    # as legitimate as r1 < r2, and one object sees both orders (own stream: the draws above are unchanged)
+    ro = np.random.default_rng([int(r.integers(2 ** 31)), 5])
+    rp2 = []
+    for (i, j) in rp:
+        u = ro.random() if i != j else 1.0
+        if u < 0.15:
+            rp2 += [(i, j), (j, i)]
+        elif u < 0.3:
+            rp2 += [(j, i), (i, j)]
+        elif u < 0.4:
+            rp2 += [(j, i)]
+        else:
+            rp2 += [(i, j)]
+    rp = rp2
     condB = float(np.linalg.cond(B))
     for (r1, r2) in rp:
+        if r1 > r2:
+            run.count("ringpairs_given_in_descending_order")
         h1s = np.array(uc.ringhkls[uc.ringds[r1]], float)
         h2s = np.array(uc.ringhkls[uc.ringds[r2]], float)
         if len(h1s) * len(h2s) > 3000:
             run.count("ringpairs_skipped_too_large")
             continue
-        if r2 >= 8:
+        if max(r1, r2) >= 8:
             run.count("ringpairs_beyond_ring_8")
         g1s = h1s @ B.T
         g2s = h2s @ B.T
@@ -454,6 +471,7 @@ def check_(run, replay, unitcell):
     run.require_counter("ringpairs_beyond_ring_8", 10)
     run.require_counter("nearest_nondegenerate_perturbed", 50)
     run.require_counter("range_calls_with_several_candidates", 100)
+    run.require_counter("ringpairs_given_in_descending_order", 50)
     for c_ in CRANGES:
         run.require_counter("range_calls:crange=%g" % c_, 100)
     run.require_counter("range_calls_where_ubi_equiv_removed_candidates", 50)
